@@ -112,7 +112,7 @@ class Hierarchy:
         return bytes(make_data(self.data_name(suffix, ident), MetaInfo(), b'content-' + suffix, s))
 
 
-DEVIATIONS = ['none', 'none', 'mismatched-identity', 'hmac-with-public-key', 'wrong-issuer-level', 'forged-signature', 'substituted-key', 'cert-timeout', 'cert-nack', 'unsigned',
+DEVIATIONS = ['none', 'none', 'missing-signature-value', 'signature-type-mismatch', 'mismatched-identity', 'hmac-with-public-key', 'wrong-issuer-level', 'forged-signature', 'substituted-key', 'cert-timeout', 'cert-nack', 'unsigned',
               'no-key-locator', 'locator-loop', 'foreign-hierarchy', 'digest-signed']
 
 
@@ -165,6 +165,21 @@ def build_case(rng, depth, dev, link=None):
         valid = False
         link = depth + 1
         data = H.data(rng, suffix, ident=C(b'id-somebody-else'))
+    elif dev in ('missing-signature-value', 'signature-type-mismatch'):
+        # names a genuine, retrievable, properly issued certificate - but carries no SignatureValue element at all, resp. declares
+        # another signature type than the key's with an all-zero value: nothing verifies (a checker that raises has not accepted either)
+        valid = False
+        link = depth + 1
+        lvl = depth
+        r0 = rc.strict_data(H.data(rng, suffix))
+        if dev == 'missing-signature-value':
+            full = rc.make_data(r0['name'], content=r0['content'], content_type=0, sig_type=r0['sig_info']['type'], key_name=H.cert_names[lvl], sig_value=b'')
+            b0, vs0, ve0 = rc.outer(full, 6)
+            kids = rc.children(b0, vs0, ve0)
+            data = rc.enc_tlv(6, b0[vs0:kids[-1][1]])           # everything but the SignatureValue element
+        else:
+            other_type = 1 if H.keys[lvl].kind != 'rsa' else 3
+            data = rc.make_data(r0['name'], content=r0['content'], content_type=0, sig_type=other_type, key_name=H.cert_names[lvl], sig_value=bytes(rng.choice([0, 8, 64])))
     elif dev == 'forged-signature':
         valid = False
         if link == depth + 1:
@@ -333,6 +348,10 @@ def check_single(ctx, rng):
             ctx.report(f'background-error:{type(ex).__name__ if ex else "?"}', f'{le.get("repr")}', w)
         if 'construct_error' in res:
             ctx.report(f'validator-construction-raises:{type(res["construct_error"]).__name__}', f'a proper anchor was refused: {res["construct_error"]!r}', w)
+            continue
+        if 'error' in res and dev in ('missing-signature-value', 'signature-type-mismatch') and not isinstance(res['error'], asyncio.TimeoutError):
+            ctx.event('verdict-reject')
+            ctx.event('validator-raised-on-unverifiable-packet')      # raising is not accepting
             continue
         if 'error' in res:
             e = res['error']
